@@ -370,8 +370,13 @@ Definition scalar_key (v : sval) : option (Z * Z) :=
   | VFloat b => Some (1, b)
   | _ => None
   end.
+Definition is_int (t : dtype) : bool := match t with TI8 | TI32 | TI64 => true | _ => false end.
 Definition sval_obs (a b : sval) : bool :=
-  sval_eqb a b || match scalar_key a, scalar_key b with Some x, Some y => (fst x =? fst y) && (snd x =? snd y) | _, _ => false end.
+  sval_eqb a b
+  || match scalar_key a, scalar_key b with Some x, Some y => (fst x =? fst y) && (snd x =? snd y) | _, _ => false end
+  || match a, b with   (* integer arrays of different width, same shape and values *)
+     | VArr t sh d, VArr t' sh' d' => is_int t && is_int t' && zl_eqb sh sh' && zl_eqb d d'
+     | _, _ => false end.
 Definition dict_obs (a b : list (str * option sval)) : bool :=
   Nat.eqb (length a) (length b)
   && forallb (fun kv => match dlookup (fst kv) b with Some v => opt_eqb sval_obs (snd kv) v | None => false end) a
